@@ -33,8 +33,10 @@ from __future__ import annotations
 import copy
 import datetime
 import gc
+import hashlib
 import json
 import os
+import random
 import shutil
 import tempfile
 import warnings
@@ -74,7 +76,10 @@ RULE = ("stream 'eng' (5 of 6 cases): random rule systems of harness/rules.py (3
         "set must not change), then further requests (calculations, inputs, deletions) on both "
         "simulations; a few dumps into a non-empty directory.  stream 'rich' (oracle only): fixed system with Enum / "
         "str / date / float / int / bool variables of all six definition periods, two group entities (sub-roles), "
-        "formulas over them, same protocol.  Non-trivial: at least two arrays were dumped and restored and at least "
+        "formulas over them, a third of the int / float / date input arrays with extreme values (INT32_MIN / MAX, "
+        "+-2^24+-1, type-width boundaries, +-inf, NaN, -0.0, denormals, dates 0001-01-01 .. 9999-12-31, alone or as a "
+        "sentinel among small values), same protocol; plus 6 big populations (a group of 300 / 70000 members next to tiny "
+        "ones, 300 / 65600 groups; sizes around 2^8 and 2^16; long arrays compared by digest).  Non-trivial: at least two arrays were dumped and restored and at least "
         "one later request returned a value; distinct by JSON text")
 TRUSTED = ["harness/rules.py: compiler from rule-system terms to real Variable subclasses (formulas call the public API)",
            "harness/c19.py: field-by-field snapshot of a real simulation (holders, populations) used by the oracle",
@@ -323,6 +328,14 @@ def files_obs(directory, nvars):
 # snapshots for the oracle (both streams)
 # ---------------------------------------------------------------------------------------
 
+def compact(values):
+    """long lists (the big-population stream) are compared by length and digest"""
+    if not isinstance(values, list) or len(values) <= 1000:
+        return values
+    digest = hashlib.sha1(json.dumps(values).encode()).hexdigest()
+    return ["long", len(values), digest, values[:12], values[-4:]]
+
+
 def canon_array(a):
     """[class, dtype, enum description | None, values] - everything the property compares"""
     cls = type(a).__name__
@@ -333,7 +346,7 @@ def canon_array(a):
         pv = a.possible_values
         enum = None if pv is None else [pv.__name__, [m.name for m in pv]]
         raw = a.view(numpy.ndarray)
-        return [cls, str(raw.dtype), enum, [int(x) for x in raw.tolist()]]
+        return [cls, str(raw.dtype), enum, compact([int(x) for x in raw.tolist()])]
     a = numpy.asarray(a)
     kind = a.dtype.kind
     if kind == "f":
@@ -346,7 +359,7 @@ def canon_array(a):
         vals = [str(x) for x in a]
     else:
         vals = [[type(x).__name__, str(x)] for x in a.tolist()]
-    return [cls, str(a.dtype), enum, vals]
+    return [cls, str(a.dtype), enum, compact(vals)]
 
 
 def snapshot(sim):
@@ -368,17 +381,23 @@ def snapshot(sim):
             e["members_role_is_role"] = [type(r).__name__ for r in pop.members_role]
             e["members_position"] = [int(x) for x in pop.members_position]
             # what positions are for: the position-dependent primitives
-            probe = numpy.arange(len(e["members_entity_id"])) * 10 + 7
-            crit = (numpy.arange(len(e["members_entity_id"])) * 7) % 5
-            for label, f in (("value_nth_person_0", lambda: pop.value_nth_person(0, probe, -1)),
-                             ("value_nth_person_1", lambda: pop.value_nth_person(1, probe, -1)),
-                             ("value_nth_person_2", lambda: pop.value_nth_person(2, probe, -1)),
-                             ("value_from_first_person", lambda: pop.value_from_first_person(probe)),
-                             ("get_rank", lambda: pop.members.get_rank(pop, crit))):
+            n_members = len(e["members_entity_id"])
+            probe = numpy.arange(n_members) * 10 + 7
+            crit = (numpy.arange(n_members) * 7) % 5
+            biggest = int(numpy.bincount(numpy.asarray(pop.members_entity_id, dtype=numpy.int64)).max()) if n_members else 0
+            probes = [("value_from_first_person", lambda: pop.value_from_first_person(probe))]
+            for nth in sorted({0, 1, 2, biggest // 2, max(biggest - 1, 0)}):
+                probes.append((f"value_nth_person_{nth}", lambda nth=nth: pop.value_nth_person(nth, probe, -1)))
+            if biggest <= 500:
+                # get_rank calls value_nth_person once per position of the biggest group
+                probes.append(("get_rank", lambda: pop.members.get_rank(pop, crit)))
+            for label, f in probes:
                 try:
                     e[label] = [int(x) for x in f()]
                 except Exception as ex:  # noqa: BLE001
                     e[label] = f"{type(ex).__name__}"
+        for field in list(e):
+            e[field] = compact(e[field])
         out["entities"][key] = e
     return out
 
@@ -389,7 +408,8 @@ def compare_snapshots(a, b, what):
         ea, eb = a["entities"].get(key), b["entities"].get(key)
         if ea is None or eb is None:
             return f"structure: {what}: entity {key} is missing on one side"
-        for field in sorted(set(ea) | set(eb)):
+        # stored fields first, then what is derived from them
+        for field in sorted(set(ea) | set(eb), key=lambda f: (f.startswith("value_") or f == "get_rank", f)):
             if ea.get(field) != eb.get(field):
                 return (f"structure: {what}: {key}.{field} differs: original {ea.get(field)!r}, "
                         f"restored {eb.get(field)!r}")
@@ -421,6 +441,13 @@ def dir_listing(directory):
             path = os.path.join(root, f)
             out.append([os.path.relpath(path, directory), os.path.getsize(path)])
     return sorted(out)
+
+
+def again_entry(orig, snap, number):
+    """a further restore of the same dump compared with the original right away (keeping every
+    snapshot would triple the size of the observations)"""
+    return {"diff": compare_snapshots(orig, snap, f"restore number {number} of the same dump"),
+            "arrays": sum(len(v) for v in snap["vars"].values())}
 
 
 def protocol(sim, tbs, dirty, before, after, request, after_dump=None, after_restore=None):
@@ -475,7 +502,7 @@ def protocol(sim, tbs, dirty, before, after, request, after_dump=None, after_res
             for drop in (False, True):
                 try:
                     extra = restore_simulation(directory, tbs)
-                    out["again"].append(snapshot(extra))
+                    out["again"].append(again_entry(out["orig"], snapshot(extra), len(out["again"]) + 2))
                 except Exception as e:  # noqa: BLE001
                     out["again"].append(Err(errkind(e), f"{type(e).__name__}: {e}"[:200]))
                     extra = None
@@ -486,7 +513,7 @@ def protocol(sim, tbs, dirty, before, after, request, after_dump=None, after_res
             extra = None
             try:
                 third = restore_simulation(directory, tbs)
-                out["again"].append(snapshot(third))
+                out["again"].append(again_entry(out["orig"], snapshot(third), len(out["again"]) + 2))
                 del third
             except Exception as e:  # noqa: BLE001
                 out["again"].append(Err(errkind(e), f"{type(e).__name__}: {e}"[:200]))
@@ -664,13 +691,21 @@ def build_rich_system():
     return tbs
 
 
+INT32_MIN, INT32_MAX = -2 ** 31, 2 ** 31 - 1
+EXTREME_INTS = [INT32_MIN, INT32_MIN + 1, INT32_MAX, -INT32_MAX, 2 ** 24 + 1, 2 ** 24 - 1, -2 ** 24 - 1, -2 ** 24 + 1,
+                127, 128, -128, -129, 32767, 32768, -32768, -32769, 0, -1]
+# floats that are not plain numbers travel as text in the (JSON) case
+EXTREME_FLOATS = ["inf", "-inf", "nan", "-0.0", 1e-45, -1e-45, 1.1754942e-38, 5e-324, 3.4028235e38, 0.0]
+EXTREME_DATES = ["0001-01-01", "9999-12-31", "1677-09-21", "2262-04-12", "1969-12-31", "1970-01-01", "1582-10-04"]
+
+
 def rich_value(rng, ty):
     if ty == "enum:Housing":
         return rng.choice([m.name for m in Housing])
     if ty == "enum:Status":
         return rng.choice([m.name for m in Status])
     if ty == "str":
-        return rng.choice(["", "a", "Zoe", "x y", "long name with spaces", "0", "None", "é"])
+        return rng.choice(["", "a", "Zoe", "x y", "long name with spaces", "0", "None", "é"])
     if ty == "date":
         return datetime.date(rng.choice([1970, 1999, 2000, 2018]), rng.randint(1, 12), rng.randint(1, 28)).isoformat()
     if ty == "float":
@@ -680,6 +715,28 @@ def rich_value(rng, ty):
     if ty == "bool":
         return rng.random() < 0.5
     raise AssertionError(ty)
+
+
+def rich_values(rng, ty, count):
+    """one input array: ordinary values, or (a third of the numeric / date arrays) extreme ones -
+    alone, or as a 'missing value' sentinel next to ordinary values"""
+    vals = [rich_value(rng, ty) for _ in range(count)]
+    pool = {"int": EXTREME_INTS, "float": EXTREME_FLOATS, "date": EXTREME_DATES}.get(ty)
+    if pool is None or count == 0 or rng.random() < 0.65:
+        return vals
+    mode = rng.random()
+    if mode < 0.4:
+        return [rng.choice(pool) for _ in range(count)]
+    if mode < 0.8:
+        # one sentinel among small values
+        sentinel = rng.choice(pool[:4])
+        vals = [rng.choice([0, 1, 7, 100]) if ty == "int" else v for v in vals]
+        vals[rng.randrange(count)] = sentinel
+        return vals
+    for i in range(count):
+        if rng.random() < 0.5:
+            vals[i] = rng.choice(pool)
+    return vals
 
 
 def rich_period(rng, du, year):
@@ -726,7 +783,7 @@ def gen_rich(rng, k):
     def a_set():
         name = rng.choice(sorted(RICH_INPUTS))
         ent, ty, du = RICH_INPUTS[name]
-        return ["set", name, rich_period(rng, du, year), [rich_value(rng, ty) for _ in range(counts[ent])]]
+        return ["set", name, rich_period(rng, du, year), rich_values(rng, ty, counts[ent])]
 
     def a_calc():
         name = rng.choice(sorted(RICH_FORMULAS) + sorted(RICH_INPUTS))
@@ -743,24 +800,101 @@ def gen_rich(rng, k):
             "requests": before, "later": after}
 
 
-def rich_array(ty, values):
+def rich_array(ty, values, count=None):
+    if isinstance(values, dict):
+        # procedural values of the big-population stream
+        i = numpy.arange(count, dtype=numpy.int64)
+        if ty == "float":
+            return ((i * values["k"]) % 1000) / 4.0
+        if ty == "int":
+            return (i * values["k"]) % 2001 - 1000
+        if ty == "bool":
+            return (i * values["k"]) % 3 == 0
+        if ty == "enum:Housing":
+            names = numpy.array([m.name for m in Housing])
+            return names[(i * values["k"]) % len(names)]
+        raise AssertionError(ty)
     if ty == "date":
         return numpy.array(values, dtype="datetime64[D]")
     if ty == "float":
-        return numpy.array(values, dtype=numpy.float64)
+        return numpy.array([float(v) for v in values], dtype=numpy.float64)
+    if ty == "int":
+        return numpy.array(values, dtype=numpy.int64)
     return numpy.array(values)
 
 
 def rich_request(sim, r):
     p = rules.mk_period(r[2])
     if r[0] == "set":
-        sim.set_input(r[1], p, rich_array(RICH_INPUTS[r[1]][1], r[3]))
+        ent = RICH_INPUTS[r[1]][0]
+        sim.set_input(r[1], p, rich_array(RICH_INPUTS[r[1]][1], r[3], sim.populations[ent].count))
         return None
     return canon_array(sim.calculate(r[1], p))
 
 
+def expand_group(spec, names):
+    """{"sizes": [...], "trailing": t, "layout": ..., "positions": ...} -> count, ids, roles, positions"""
+    sizes = spec["sizes"]
+    ids = [g for g, k in enumerate(sizes) for _ in range(k)]
+    if spec["layout"] == "shuffled":
+        random.Random(spec.get("seed", 0)).shuffle(ids)
+    elif spec["layout"] == "reversed":
+        ids.reverse()
+    seen, roles = {}, []
+    for g in ids:
+        k = seen.get(g, 0)
+        seen[g] = k + 1
+        roles.append(k if k < len(names) - 1 else len(names) - 1)
+    positions = None
+    if spec.get("positions") == "reversed":
+        left = dict(seen)
+        positions = []
+        for g in ids:
+            left[g] -= 1
+            positions.append(left[g])
+    return {"count": len(sizes) + spec.get("trailing", 0), "ids": ids, "roles": roles, "positions": positions}
+
+
+def gen_big(rng, k):
+    """few groups with very many members, and very many groups: sizes around 2^8 and 2^16"""
+    shapes = [
+        ([300, 2, 1], [3, 300]),
+        ([1, 70000, 3], [70000, 4]),
+        ([1] * 299 + [2], [150, 151]),
+        ([1] * 65600, [65537, 63]),
+        ([256, 255, 1], [257] + [1] * 255),
+        ([65536, 1], [2, 65535]),
+    ]
+    hh_sizes, cl_sizes = shapes[k % len(shapes)]
+    n = sum(hh_sizes)
+    assert n == sum(cl_sizes)
+    layout = lambda: rng.choice(["blocks", "shuffled", "reversed"])  # noqa: E731
+    pop = {"n": n, "pids": None,
+           "spec": {"household": {"sizes": hh_sizes, "trailing": rng.choice([0, 1, 2]), "layout": layout(),
+                                  "seed": rng.randrange(1000), "positions": rng.choice([None, "reversed"])},
+                    "club": {"sizes": cl_sizes, "trailing": rng.choice([0, 1]), "layout": layout(),
+                             "seed": rng.randrange(1000), "positions": rng.choice([None, "reversed"])}}}
+    jan = ["month", [2018, 1, 1], 1]
+    week = ["week", [2018, 1, 1], 1]
+    day = ["weekday", [2018, 1, 3], 1]
+    before = [["set", "wage", jan, {"k": rng.choice([7, 97, 333])}],
+              ["set", "hours", week, {"k": rng.choice([11, 1999])}],
+              ["set", "present", day, {"k": rng.choice([1, 2, 5])}],
+              ["set", "housing", jan, {"k": rng.choice([1, 3, 5])}],
+              ["calc", "n_owners", jan]]
+    after = [["calc", "president_wage", jan], ["calc", "week_hours", week],
+             ["calc", "first_parent_present", day], ["calc", "club_size", ["year", [2018, 1, 1], 1]],
+             ["calc", "housing_next", ["month", [2018, 2, 1], 1]]]
+    return {"kind": "rich", "big": True, "pop": pop, "cfg": {"disk": k % 2 == 1}, "dirty": False,
+            "requests": before, "later": after}
+
+
 def run_rich(case):
     pop = case["pop"]
+    if pop.get("spec"):
+        pop = {"n": pop["n"], "pids": range(pop["n"]),
+               "household": expand_group(pop["spec"]["household"], HH_ROLES),
+               "club": expand_group(pop["spec"]["club"], CLUB_ROLES)}
     with warnings.catch_warnings():
         warnings.simplefilter("ignore")
         tbs = build_rich_system()
@@ -790,6 +924,8 @@ def generate(rng, tier):
     cases = []
     for k in range(n):
         cases.append(gen_rich(rng, k) if k % 6 == 5 else gen_eng(rng, k))
+    for k in range({"quick": 6, "escalated": 6, "thorough": 18}[tier]):
+        cases.append(gen_big(rng, k))
     return cases
 
 
@@ -857,9 +993,8 @@ def oracle(case, obs):
     for k, snap in enumerate(obs["again"]):
         if isinstance(snap, Err):
             return f"again: restore number {k + 2} of the same dump raised: {snap.msg}"
-        msg = compare_snapshots(obs["orig"], snap, f"restore number {k + 2} of the same dump")
-        if msg:
-            return "again-" + msg
+        if snap["diff"]:
+            return "again-" + snap["diff"]
     for k, listing in enumerate(obs["listing"][1:]):
         if listing != obs["listing"][0]:
             gone = [f for f in obs["listing"][0] if f not in listing]
@@ -896,6 +1031,8 @@ def classify(case, obs):
         for name, known in obs.get("rest", {}).get("vars", {}).items():
             if known:
                 types.add((RICH_INPUTS.get(name) or ("", "formula"))[1].split(":")[0])
+        if case.get("big"):
+            return "rich:big-population"
         return "rich:" + "+".join(sorted(types))
     if isinstance(obs["dump"], Err):
         return "eng:dump-refused"
